@@ -120,6 +120,7 @@ class C06(core.Check):
             'program (cross-region / cross-file / after-.org reference, undefined name, duplicate per scope, orphan local, '
             'register- or keyword-named label or constant). distinct_nontrivial = distinct (shadowing situations, illegal-site '
             'kind, #files) signatures.')
+    rule = rule + ' ' + 'Labels are also written behind a data or constant statement on the same line.'
     assumptions = ('register / keyword names are tested without a scope prefix only',
                    'includes sit at region boundaries here (continuation across an include is C17)')
     chunk = 800
